@@ -140,8 +140,17 @@ def run(ctx):
                 if any(f["kind"].startswith("trunc") or f["kind"] in ("missing", "wrong-suffix") for f in fs):
                     continue          # the inner zip only exists in the nested form; outer truncations are separate cases
                 nested = True
+            # the folder form of a document (a package: Index.zip plus loose members), for the faults that do not live in the outer zip
+            zip_only = ("crc", "zip-feature", "nested-index-damaged")
+            if k % 7 == 3 and not nested and not any(f["kind"].startswith("trunc") or f["kind"] in zip_only for f in fs):
+                nested = "package"
             jobs.append((k, d, fs, pred, ctx.seed * 5 + k, ctx.scratch, nested))
             k += 1
+        # every metadata fault once more in the folder form
+        for (fs, pred) in singles:
+            if len(fs) == 1 and fs[0]["kind"] in ("missing-plist", "missing-build-history", "bad-plist", "plist-xml-garbage", "plist-no-version", "plist-version-type", "no-objects"):
+                jobs.append((k, d, fs, pred, ctx.seed * 5 + k, ctx.scratch, "package"))
+                k += 1
         # the zip-feature fault has several variants (version needed, method, encrypted member, patched data) at any directory record
         zf_case = next(((fs, pred) for fs, pred in singles if len(fs) == 1 and fs[0]["kind"] == "zip-feature"), None)
         for j in range(10 if q else 60):
